@@ -1,7 +1,7 @@
 """Structural clauses added after the eighth round (g) of independently seeded changes (same discipline as rules5/6/7)."""
 from .core import op_place, op_local, callee_name, last_seg, norm_path, walk_expr
 from .report import RuleResult, Violation
-from .guard import Obl, dom_atoms, named_roots, reach, return_some_sites, deep_leaves, roots_named, edge_atom
+from .guard import Obl, dom_atoms, named_roots, reach, return_some_sites, deep_leaves, roots_named, edge_atom, derived_locals
 from .tag import leaves, strip_casts
 
 FN_TRAITS = ("core::ops::FnMut", "core::ops::Fn", "core::ops::FnOnce")
@@ -949,15 +949,8 @@ def dijkstra_exits(facts):
         rets = {i for i, bl in enumerate(b.blocks) if bl["term"]["k"] == "return" and not bl["cleanup"]}
         popped = {("local", l) for l in range(len(b.locals)) if b.lname(l)} & set()
         # named locals bound from the popped element
-        pop_roots = set()
-        for l in range(len(b.locals)):
-            if not b.lname(l):
-                continue
-            for d in b.defs().get(l, []):
-                if d[0] == "st":
-                    rv = b.blocks[d[1]]["st"][d[2]]["rv"]
-                    if rv["k"] == "use" and op_place(rv["o"][0]) is not None and op_place(rv["o"][0])["l"] == pops[0][1]["dest"]["l"]:
-                        pop_roots.add(("local", l))
+        from_pop = derived_locals(b, {pops[0][1]["dest"]["l"]})
+        pop_roots = {("local", l) for l in from_pop if b.lname(l)}
         n = 0
         for u in sorted(loop):
             for v in succ[u]:
@@ -975,16 +968,28 @@ def dijkstra_exits(facts):
                             cases = [c for c in b.switch_edges(u) if c[0] != "otherwise"]
                             if lab == "otherwise" and len(cases) == 1 and cases[0][0] in (0, 1):
                                 lab = 1 - cases[0][0]      # a bool switch: the other value
-                            ea = edge_atom(b, u, lab, 12, True)
-                            if ea is not None:
-                                atoms.append((ea[0], ea[1], u))
+                            for nl in (True, False):
+                                ea = edge_atom(b, u, lab, 14, nl)
+                                if ea is not None:
+                                    atoms.append((ea[0], ea[1], u))
                 for (a, truth, src) in atoms:
                     for s in walk_expr(a):
+                        if isinstance(s, tuple) and s[0] == "call" and last_seg(s[1]["path"]) in ("map_or", "is_some_and", "contains") and len(s[2]) >= 2:
+                            # goal.as_ref().map_or(false, |g| *g == node): the closure captures the popped node and is applied to the goal
+                            lv = set()
+                            for a_ in s[2]:
+                                lv |= set(leaves(a_))
+                            clo = [x for a_ in s[2] for x in walk_expr(a_) if isinstance(x, tuple) and x[0] == "agg" and len(x) > 1 and isinstance(x[1], str) and "{closure" in x[1]]
+                            cmp_in_clo = any(facts.body(c_[1]) is not None and any(last_seg(t_["f"]["path"]) in ("eq", "ne") for _, t_ in facts.body(c_[1]).calls()) for c_ in clo)
+                            has_pop = bool(lv & pop_roots) or any(isinstance(x, tuple) and x[0] == "call" and x[3] == h for a_ in s[2] for x in walk_expr(a_))
+                            if has_pop and ("arg", 3) in lv and (cmp_in_clo or last_seg(s[1]["path"]) == "contains"):
+                                ok = True
                         if isinstance(s, tuple) and s[0] == "call" and last_seg(s[1]["path"]) in ("eq", "ne") and len(s[2]) >= 2:
                             rts = set()
                             for a_ in s[2]:
                                 rts |= roots_named(b, a_)
-                            if rts & pop_roots and ("arg", 3) in {x for a_ in s[2] for x in leaves(a_)} | rts:
+                            has_pop = bool(rts & pop_roots) or any(isinstance(x, tuple) and x[0] == "call" and x[3] == h for a_ in s[2] for x in walk_expr(a_))
+                            if has_pop and ("arg", 3) in {x for a_ in s[2] for x in leaves(a_)} | rts:
                                 ok = True
                 o.check(b, "exit#%d" % n, b.blocks[u]["term"].get("line", b.line), ok, "the exit is taken when the popped node equals the goal",
                         "dijkstra leaves its loop on a test that does not compare the goal with the node just popped: the goal's score is returned before every cheaper route "
